@@ -20,7 +20,7 @@ func runC03(args []string) error {
 	r := rf.rng()
 	n := rf.count(150, 3000)
 	sum := &Summary{Engine: "c03", Seed: rf.Seed,
-		Rule: "random logs of 3-14 entries (with and without leader index, transactions, range deletes, sequences) applied to two real fsm.FSM instances under two independent random partitions into apply batches, with Close/Open and PrepareSnapshot/SaveSnapshot/RecoverFromSnapshot (snapshot and checkpoint format, and across formats) at random cut points; compared: per-entry results, full content, both indices, GetHash; distinct = distinct (log, partitions); non-trivial = the partitions differ and some entry carries a leader index"}
+		Rule: "random logs of 3-14 entries (with and without leader index, transactions, range deletes, sequences) applied to two real fsm.FSM instances under two independent random partitions into apply batches, with Close/Open and PrepareSnapshot/SaveSnapshot/RecoverFromSnapshot (snapshot and checkpoint format, and across formats; the stream written right away or only after the saver applied the next batch, the receiver replaying that batch) at random cut points; compared: per-entry results, full content, both indices, GetHash; distinct = distinct (log, partitions); non-trivial = the partitions differ and some entry carries a leader index"}
 	cf := &CasesFile{Requires: []string{"Model.Bytes", "Model.Obs", "Model.Cmd", "Model.Fsm", "Run.FsmRun"}, CaseType: "fcase",
 		Check: "fsm_check", Show: "fsm_model", Spec: "fsm_spec_check", SpecShow: "fsm_spec"}
 	hc := sum.hist("commands")
@@ -52,6 +52,14 @@ func runC03(args []string) error {
 					steps = append(steps, gStep{Kind: 5, Reopen: ro})
 					sig = append(sig, fmt.Sprintf("r%d", ro))
 					hp.Inc(fmt.Sprintf("reopen-kind-%d", ro))
+				}
+			}
+			// a transfer whose stream is written only after the saver applied the next batch
+			for j := 0; j+1 < len(steps); j++ {
+				if steps[j].Kind == 5 && steps[j].Reopen >= 1 && steps[j+1].Kind == 0 && r.Intn(2) == 0 {
+					steps[j].Late = steps[j+1].Entries
+					sig = append(sig, fmt.Sprintf("late@%d", j))
+					hp.Inc("save-after-next-batch")
 				}
 			}
 			steps = append(steps, gStep{Kind: 1, R: full}, gStep{Kind: 4})
